@@ -793,12 +793,16 @@ func runPathHistory(r *mon.Run, pool []*variant, ops []pathOp, mode dbMode, reco
 		fmt.Fprintf(os.Stderr, "store: cannot open path db: %v\n", err)
 		os.Exit(2)
 	}
-	ctx, cancel := context.WithTimeout(context.Background(), 5*time.Minute)
-	defer cancel()
+	// No deadline: with a cancellable context the sqlite driver starts a
+	// goroutine per row; hangs are the driver script's watchdog's business.
+	ctx := context.Background()
 	pr := &pathRun{rc: recorder{r, record}, ctx: ctx, db: backend, rw: backend,
 		model: storeref.NewPathStore(), pool: pool, reader: mode.reader}
 	var wg sync.WaitGroup
 	stop := make(chan struct{})
+	// the reader performs a bounded number of reads per judged operation
+	// (concurrently with it) instead of spinning on the database
+	tick := make(chan struct{}, 4)
 	if mode.reader {
 		wg.Add(1)
 		go func() { // unjudged concurrent reader: only there for the race detector
@@ -812,7 +816,7 @@ func runPathHistory(r *mon.Run, pool []*variant, ops []pathOp, mode dbMode, reco
 						r.EventN("path_concurrent_reads", int64(n))
 					}
 					return
-				default:
+				case <-tick:
 				}
 				switch n % 3 {
 				case 0:
@@ -823,11 +827,16 @@ func runPathHistory(r *mon.Run, pool []*variant, ops []pathOp, mode dbMode, reco
 					_, _ = backend.GetNextQuery(ctx, allASes[0], allASes[1])
 				}
 				n++
-				runtime.Gosched()
 			}
 		}()
 	}
 	for i, op := range ops {
+		for k := 0; k < 2 && mode.reader; k++ {
+			select {
+			case tick <- struct{}{}:
+			default:
+			}
+		}
 		var fl *failure
 		if p, stack := mon.Try(func() { fl = pr.exec(op) }); p != nil {
 			fl = failf("C27:path:panic:"+mon.PanicSite(stack), "panic in %s: %v\n%s", op.Kind, p, stack)
@@ -1490,11 +1499,15 @@ func runBeaconHistory(r *mon.Run, pool []*variant, ops []beaconOp, mode dbMode, 
 		fmt.Fprintf(os.Stderr, "store: cannot open beacon db: %v\n", err)
 		os.Exit(2)
 	}
-	ctx, cancel := context.WithTimeout(context.Background(), 5*time.Minute)
-	defer cancel()
+	// No deadline: with a cancellable context the sqlite driver starts a
+	// goroutine per row; hangs are the driver script's watchdog's business.
+	ctx := context.Background()
 	br := &beaconRun{rc: recorder{r, record}, ctx: ctx, db: backend, model: storeref.NewBeaconStore(), pool: pool, reader: mode.reader}
 	var wg sync.WaitGroup
 	stop := make(chan struct{})
+	// the reader performs a bounded number of reads per judged operation
+	// (concurrently with it) instead of spinning on the database
+	tick := make(chan struct{}, 4)
 	if mode.reader {
 		wg.Add(1)
 		go func() {
@@ -1508,7 +1521,7 @@ func runBeaconHistory(r *mon.Run, pool []*variant, ops []beaconOp, mode dbMode, 
 						r.EventN("beacon_concurrent_reads", int64(n))
 					}
 					return
-				default:
+				case <-tick:
 				}
 				switch n % 3 {
 				case 0:
@@ -1519,11 +1532,16 @@ func runBeaconHistory(r *mon.Run, pool []*variant, ops []beaconOp, mode dbMode, 
 					_, _ = backend.BeaconSources(ctx)
 				}
 				n++
-				runtime.Gosched()
 			}
 		}()
 	}
 	for i, op := range ops {
+		for k := 0; k < 2 && mode.reader; k++ {
+			select {
+			case tick <- struct{}{}:
+			default:
+			}
+		}
 		var fl *failure
 		if p, stack := mon.Try(func() { fl = br.exec(op) }); p != nil {
 			fl = failf("C27:beacon:panic:"+mon.PanicSite(stack), "panic in %s: %v\n%s", op.Kind, p, stack)
